@@ -13,6 +13,7 @@ import (
 	"os"
 	"path/filepath"
 	"sort"
+	"strconv"
 	"strings"
 	"sync"
 	"time"
@@ -390,6 +391,7 @@ func runOutputCases(c *Ctx, driver string, ocs []outCase, keep func(pred string)
 	src := map[string]key{}
 	var cs []map[string]interface{}
 	goBadByID := map[string][]string{}
+	rowsByID := map[string]map[string]bool{}
 	answers := make([]outAnswer, len(ocs))
 	var wg sync.WaitGroup
 	sem := make(chan struct{}, 16)
@@ -436,6 +438,7 @@ func runOutputCases(c *Ctx, driver string, ocs []outCase, keep func(pred string)
 				}
 			}
 			shownPrev = cur
+			rowsByID[id] = cur
 			if len(goBad) > 0 {
 				goBadByID[id] = goBad
 			}
@@ -468,13 +471,108 @@ func runOutputCases(c *Ctx, driver string, ocs []outCase, keep func(pred string)
 			continue
 		}
 		k := src[id]
+		obs := map[string]interface{}{"bad": bad[id]}
+		if len(bad[id]) == 1 && bad[id][0] == "row_shown_iff_threshold" && floatLevelExplains(k.oc, k.th, rowsByID[id]) {
+			obs["tag_site"] = "level_of_concern_float64_above_2^53"
+		}
 		c.AddViolation(Violation{Predicate: strings.Join(fl, ","), Spec: "OutputJudge (Output!Shown/Bangs/StarsOK/FootnotesOK, Human!Admissible)", Kind: "output",
-			Input: map[string]interface{}{"case": k.oc, "threshold": k.th.S}, Observed: map[string]interface{}{"bad": bad[id]}})
+			Input: map[string]interface{}{"case": k.oc, "threshold": k.th.S}, Observed: obs})
 	}
 	c.mu.Lock()
 	c.Ev.TracesValid += int64(len(cs) - len(bad))
 	c.mu.Unlock()
 	c.Note("%d (HistorySize, threshold) reports rendered by the real code and judged by TLC; %d rejected", len(cs), len(bad))
+}
+
+// uniformRowCases: every metric carries the same value v (its capacity at most), for v around the places where
+// the rendering of a table cell changes shape: below and above the first prefix of BOTH systems (990..1031, so
+// that count rows carry 1000..1023 and byte rows 1000..1023 as well), and around m * base^k for the numerals at
+// which a decimal is dropped or the prefix changes (1, 9.995, 10, 99.95, 100, 999.5, 1000, 1023.5).
+func uniformRowCases() []outCase {
+	seen := map[string]bool{}
+	var vals []*big.Int
+	add := func(v *big.Int) {
+		if v.Sign() >= 0 && !seen[v.String()] {
+			seen[v.String()] = true
+			vals = append(vals, v)
+		}
+	}
+	for v := int64(990); v <= 1031; v++ {
+		add(big.NewInt(v))
+	}
+	for _, base := range []int64{1000, 1024} {
+		unit := big.NewInt(1)
+		for k := 0; k <= 6; k++ {
+			for _, m := range []int64{1000, 9995, 10000, 99950, 100000, 999500, 1000000, 1023500} { // thousandths
+				v := new(big.Int).Mul(unit, big.NewInt(m))
+				v.Div(v, big.NewInt(1000))
+				for d := int64(-1); d <= 1; d++ {
+					add(new(big.Int).Add(v, big.NewInt(d)))
+				}
+			}
+			unit = new(big.Int).Mul(unit, big.NewInt(base))
+		}
+	}
+	var out []outCase
+	for _, v := range vals {
+		oc := outCase{ID: "uni" + v.String(), HS: map[string]string{}, Witness: map[string]string{}, Style: "none"}
+		for _, it := range outItems {
+			x := v
+			if x.Cmp(capOf(it)) > 0 {
+				x = capOf(it)
+			}
+			oc.HS[it.Field] = x.String()
+		}
+		out = append(out, oc)
+	}
+	return out
+}
+
+func isHumanPred(p string) bool {
+	return p == "value_cell_not_rendering_of_json_value" || p == "row_label_or_unit" || p == "renderer_panics"
+}
+
+// floatLevelExplains recognises KF-D15 and nothing else: the rows that were shown are exactly those for which
+// float64(value)/reference >= threshold holds in float64 arithmetic (the comparison as coded), and every metric
+// on which that differs from the exact comparison carries a value above 2^53 (which float64 cannot hold).
+func floatLevelExplains(oc outCase, th thrSpec, shown map[string]bool) bool {
+	t, err := strconv.ParseFloat(th.S, 64)
+	if err != nil || shown == nil {
+		return false
+	}
+	num := big.NewInt(1)
+	for _, f := range th.TF {
+		num.Mul(num, big.NewInt(int64(f)))
+	}
+	if th.Neg {
+		num.Neg(num)
+	}
+	two53 := new(big.Int).Lsh(big.NewInt(1), 53)
+	differs := false
+	for i, it := range outItems {
+		v, ok := new(big.Int).SetString(oc.HS[it.Field], 10)
+		if !ok {
+			return false
+		}
+		sat := v.Cmp(capOf(it)) >= 0
+		f, _ := new(big.Float).SetInt(v).Float64() // nearest float64, as the conversion uint64 -> float64 gives
+		coded := sat || !(f/it.Scale < t)
+		// exact: v / scale >= num / TD  <=>  v * TD >= num * scale
+		lhs := new(big.Int).Mul(v, big.NewInt(int64(th.TD)))
+		sc, _ := new(big.Float).SetFloat64(it.Scale).Int(nil)
+		rhs := new(big.Int).Mul(num, sc)
+		exact := sat || lhs.Cmp(rhs) >= 0
+		if shown[fmt.Sprint(i+1)] != coded {
+			return false
+		}
+		if coded != exact {
+			if v.Cmp(two53) <= 0 {
+				return false
+			}
+			differs = true
+		}
+	}
+	return differs
 }
 
 func isFootnotePred(p string) bool {
@@ -494,6 +592,7 @@ func checkC11(c *Ctx) {
 	for i := 0; i < n; i++ {
 		ocs = append(ocs, genOutCase(rng, fmt.Sprintf("o%d", i+1)))
 	}
+	ocs = append(ocs, uniformRowCases()...)
 	runOutputCases(c, env.api, ocs, func(p string) bool { return !isFootnotePred(p) })
 	cliOutputCases(c, rng)
 }
